@@ -78,6 +78,30 @@ func (rd *ReorgDetector) removeTrackedBlockRange(id string, fromBlock, toBlock u
 	return err
 }
 
+// getLastTrackedBlockRowID returns the highest rowid among the tracked blocks of a subscriber within the given range
+// (0 if there are none). Rows inserted afterwards get a higher rowid.
+func (rd *ReorgDetector) getLastTrackedBlockRowID(id string, fromBlock, toBlock uint64) (int64, error) {
+	var rowID sql.NullInt64
+	err := rd.db.QueryRow(
+		"SELECT MAX(rowid) FROM tracked_block WHERE num >= $1 AND num <= $2 AND subscriber_id = $3;",
+		fromBlock, toBlock, id,
+	).Scan(&rowID)
+	if err != nil {
+		return 0, err
+	}
+	return rowID.Int64, nil
+}
+
+// removeTrackedBlockRangeUpToRowID removes the tracked blocks of a subscriber within the given range
+// that were stored up to the given rowid
+func (rd *ReorgDetector) removeTrackedBlockRangeUpToRowID(id string, fromBlock, toBlock uint64, lastRowID int64) error {
+	_, err := rd.db.Exec(
+		"DELETE FROM tracked_block WHERE num >= $1 AND num <= $2 AND subscriber_id = $3 AND rowid <= $4;",
+		fromBlock, toBlock, id, lastRowID,
+	)
+	return err
+}
+
 type ReorgEvent struct {
 	DetectedAt   int64       `meddler:"detected_at"`
 	FromBlock    uint64      `meddler:"from_block"`
